@@ -19,6 +19,7 @@ type ChannelBind struct {
 
 	allocation    *Allocation
 	lifetimeTimer *time.Timer
+	expiry        time.Time // Protected by the allocation's channelBindingsLock.
 	log           logging.LeveledLogger
 }
 
@@ -31,16 +32,19 @@ func NewChannelBind(number proto.ChannelNumber, peer net.Addr, log logging.Level
 	}
 }
 
+// start arms the binding's lifetime. The caller holds the allocation's
+// channelBindingsLock.
 func (c *ChannelBind) start(lifetime time.Duration) {
+	c.expiry = time.Now().Add(lifetime)
 	c.lifetimeTimer = time.AfterFunc(lifetime, func() {
-		if !c.allocation.RemoveChannelBind(c.Number) {
-			c.log.Errorf("Failed to remove ChannelBind for %v %x %v", c.Number, c.Peer, c.allocation.fiveTuple)
-		}
+		c.allocation.expireChannelBind(c)
 	})
 }
 
+// refresh extends the binding's lifetime. The caller holds the allocation's
+// channelBindingsLock: when the timer has already fired, its callback is
+// waiting for that lock, and will find the new expiry and stand down.
 func (c *ChannelBind) refresh(lifetime time.Duration) {
-	if !c.lifetimeTimer.Reset(lifetime) {
-		c.log.Errorf("Failed to reset ChannelBind timer for %v %x %v", c.Number, c.Peer, c.allocation.fiveTuple)
-	}
+	c.expiry = time.Now().Add(lifetime)
+	c.lifetimeTimer.Reset(lifetime)
 }
